@@ -2,7 +2,7 @@
 import ast
 from typing import List, Optional, Dict, Tuple
 
-from ..core import Index, FuncDef, ClassDef, Def, External, AnalysisError, unparse, dotted_name, walk_own
+from ..core import Index, FuncDef, ClassDef, Def, External, AnalysisError, unparse, dotted_name, walk_own, parent
 from ..fold import Folder, Record, EnumMember, Ref, is_unknown, tuple_record_elements, single_return_expr
 from ..absint import Interp, Hooks, State, Event, K, Sym, NONE
 from ..report import Check
@@ -624,3 +624,121 @@ def suite_reading_method(ix, require):
     require(len(ms) == 1, 'the method of _SingleFileReader that resolves the handling setup of a suite is not unique: %s'
             % [m.name for m in ms])
     return ms[0]
+
+
+# ------------------------------------------------------------------ NULL-vs-ZERO: 0 is a value, not "absent"
+
+_OPT_INT = ('Optional[int]', 'typing.Optional[int]', 'int | None', 'None | int')
+
+
+def _is_opt_int(ann) -> bool:
+    return ann is not None and unparse(ann) in _OPT_INT
+
+
+def optional_int_truth_tests(ix: Index, modules) -> Tuple[int, List[Tuple[str, int, str, str]]]:
+    """(number of optional-int values looked at, [(relpath, line, function key, expression)]) - places where a value
+    declared `Optional[int]` (a parameter, a local or an attribute assigned from one, the result of a method of the
+    same class declared to return one) decides a branch by its TRUTH value (`if x`, `not x`, `x or d`, `x and y`,
+    `a if x else b`): 0 is then treated like None.  `x is None` / `x is not None` / comparisons are the accepted forms."""
+    n_values = 0
+    hits = []
+    for m in modules:
+        for cls_or_none, funcs in _functions_by_class(m):
+            opt_attrs = set()
+            opt_methods = set()
+            for f in funcs:
+                if _is_opt_int(f.node.returns) and not f.node.args.args[1:]:
+                    opt_methods.add(f.name)
+                params = {a.arg for a in f.node.args.args + f.node.args.kwonlyargs if _is_opt_int(a.annotation)}
+                for n in walk_own(f.node):
+                    if isinstance(n, ast.Assign) and len(n.targets) == 1 and isinstance(n.targets[0], ast.Attribute) \
+                            and isinstance(n.targets[0].value, ast.Name) and n.targets[0].value.id == 'self' \
+                            and isinstance(n.value, ast.Name) and n.value.id in params:
+                        opt_attrs.add(n.targets[0].attr)
+                    if isinstance(n, ast.AnnAssign) and isinstance(n.target, ast.Attribute) and _is_opt_int(n.annotation) \
+                            and isinstance(n.target.value, ast.Name) and n.target.value.id == 'self':
+                        opt_attrs.add(n.target.attr)
+            for f in funcs:
+                names = {a.arg for a in f.node.args.args + f.node.args.kwonlyargs if _is_opt_int(a.annotation)}
+                # locals bound once to an optional-int expression
+                for name, bs in f.local_bindings().items():
+                    if len(bs) == 1 and bs[0][0] in ('assign', 'annassign') and bs[0][1] is not None \
+                            and _opt_int_expr(bs[0][1], names, opt_attrs, opt_methods):
+                        names = names | {name}
+                n_values += len(names)
+                for n in walk_own(f.node):
+                    for te in _truth_tested(n):
+                        if _opt_int_expr(te, names, opt_attrs, opt_methods):
+                            hits.append((m.relpath, te.lineno, f.key, unparse(te)))
+            n_values += len(opt_attrs) + len(opt_methods)
+    return n_values, sorted(set(hits))
+
+
+def _functions_by_class(m):
+    by = {}
+    for f in m.funcs_by_node.values():
+        by.setdefault(f.cls, []).append(f)
+    return by.items()
+
+
+def _opt_int_expr(e, names, opt_attrs, opt_methods) -> bool:
+    if isinstance(e, ast.Name):
+        return e.id in names
+    if isinstance(e, ast.Attribute) and isinstance(e.value, ast.Name) and e.value.id == 'self':
+        return e.attr in opt_attrs or e.attr in opt_methods
+    if isinstance(e, ast.Call) and not e.args and not e.keywords and isinstance(e.func, ast.Attribute) \
+            and isinstance(e.func.value, ast.Name) and e.func.value.id == 'self':
+        return e.func.attr in opt_methods
+    return False
+
+
+def _truth_tested(n):
+    if isinstance(n, (ast.If, ast.While, ast.IfExp)):
+        yield from _truth_leaves(n.test)
+    elif isinstance(n, ast.BoolOp) and not _in_test_position(n):
+        for v in n.values[:-1]:
+            yield from _truth_leaves(v)
+    elif isinstance(n, ast.Assert):
+        yield from _truth_leaves(n.test)
+    elif isinstance(n, ast.comprehension):
+        for i in n.ifs:
+            yield from _truth_leaves(i)
+
+
+def _in_test_position(n) -> bool:
+    p = parent(n)
+    while isinstance(p, (ast.BoolOp, ast.UnaryOp)):
+        n, p = p, parent(p)
+    return isinstance(p, (ast.If, ast.While, ast.IfExp, ast.Assert)) and p.test is n
+
+
+def _truth_leaves(e):
+    if isinstance(e, ast.BoolOp):
+        for v in e.values:
+            yield from _truth_leaves(v)
+    elif isinstance(e, ast.UnaryOp) and isinstance(e.op, ast.Not):
+        yield from _truth_leaves(e.operand)
+    else:
+        yield e
+
+
+def check_zero_is_a_value(c: Check, rule: str, module_names, floor: int, what: str) -> None:
+    from ..report import VERIF_ROOT
+    import os
+    ix = c.ix
+    n, hits = optional_int_truth_tests(ix, [ix.module(mn) for mn in module_names])
+    for relpath, line, fkey, expr in hits:
+        c.bad(rule, 'zero-is-a-value/%s/%s' % (fkey, expr),
+              '`%s` is declared Optional[int] and is tested by its truth value: 0 is treated like "absent" (%s)' % (
+                  expr, what), '%s:%d' % (relpath, line))
+    if not hits:
+        c.ok(rule, 'zero-is-a-value/%s' % '+'.join(mn.split('.')[-1] for mn in module_names),
+             detail='%d optional-int values, none tested by truth value' % n)
+    c.floor(rule, 'optional-int values in ' + ', '.join(module_names), n, floor)
+    fx = Index(os.path.join(VERIF_ROOT, 'fixtures', 'optint'))
+    fm = fx.module('exactly_lib.fixture_optint')
+    _, got = optional_int_truth_tests(fx, [fm])
+    want = sorted(i + 1 for i, line in enumerate(fm.src.splitlines()) if '# EXPECT truth' in line)
+    if sorted(h[1] for h in got) != want:
+        raise AnalysisError('%s: positive control of zero-is-a-value failed: reported lines %s, expected %s' % (
+            rule, sorted(h[1] for h in got), want))
